@@ -12,6 +12,7 @@ import (
 var (
 	ErrInvalidSignature = errors.New("invalid signature")
 	ErrInvalidTimestamp = errors.New("invalid timestamp")
+	ErrInvalidKeyPeerId = errors.New("key-peer id doesn't match the signed key and peer")
 )
 
 type KeyValue struct {
@@ -61,8 +62,11 @@ func KeyValueFromProto(proto *spacesyncproto.StoreKeyValue, verify bool) (kv Key
 	kv.PeerId = peerId.PeerId()
 	kv.Key = innerValue.Key
 	kv.AclId = innerValue.AclHeadId
-	// TODO: check that key-peerId is equal to key+peerId?
 	if verify {
+		// the slot the value is filed under must be the one named inside the signed bytes
+		if proto.KeyPeerId != innerValue.Key+"-"+kv.PeerId {
+			return kv, ErrInvalidKeyPeerId
+		}
 		if verify, _ = identity.Verify(proto.Value, proto.IdentitySignature); !verify {
 			return kv, ErrInvalidSignature
 		}
